@@ -38,6 +38,7 @@ structure S where
   goParses : List String := []
   goErr : Option String := none
   crash : Option String := none
+  lateClosed : Option Bool := none   -- late-body cases: was the connection closed before the rest of the request body was sent?
   deriving Inhabited
 
 def parseOp (t : String) : Option HOp :=
@@ -91,6 +92,8 @@ def handle (s : S) : List String → S × String
   | ["obs", "wire", h] => ({ s with wire := unhex h }, "ok")
   | ["obs", "close", n] => ({ s with closeAt := n.toInt?.getD (-1) }, "ok")
   | ["obs", "crash", m] => ({ s with crash := some m }, "ok")
+  | ["obs", "hang"] => ({ s with crash := some "the connection did not come to an end within 5 s after the peer had sent everything and closed" }, "ok")
+  | ["obs", "lateclosed", b] => ({ s with lateClosed := some (b == "1") }, "ok")
   | "obs" :: "go" :: _k :: rest => ({ s with goParses := s.goParses ++ [" ".intercalate rest] }, "ok")
   | ["obs", "goerr", _k, m] => ({ s with goErr := some m }, "ok")
   | ["end"] =>
@@ -112,6 +115,11 @@ def handle (s : S) : List String → S × String
     else if parsedText != wantText then
       (s, s!"specviol responses on the wire differ from what the handlers produced: expected {wantText} on the wire {parsedText}")
     else if s.wire.length != total then (s, s!"diff wire length {s.wire.length}, model {total}")
+    else if s.lateClosed == some false && model.length == s.reqs.length &&
+        (match s.reqs.getLast?, s.progs[s.reqs.length - 1]? with
+         | some r, some (_, ops) => (serveOne r.minor (r.conn == "c" || (r.minor == 0 && r.conn != "k")) ops).markedClose
+         | _, _ => false) then
+      (s, "specviol the end of the last response is the end of the connection (no length, no chunking), but the server keeps the connection open waiting for request bytes that have not been sent")
     else if s.closeAt != (s.wire.length : Int) then
       (s, s!"specviol the connection was closed at byte {s.closeAt} of {s.wire.length} response bytes")
     else (s, s!"ok served={model.length}/{s.reqs.length}")
